@@ -1648,3 +1648,56 @@ Proof.
   reflexivity.
 Qed.
 End Fresh.
+
+(* ================================================================== *)
+(* adding a handler is atomic with respect to events *)
+(* ================================================================== *)
+Module Atomic.
+Local Arguments Nat.leb : simpl never.
+
+Lemma cache_apply_new : forall k o c x,
+  In x (fst (cache_apply k o c)) ->
+  In x c \/ (x = o /\ snd (cache_apply k o c) = Some (NAdd o)).
+Proof.
+  intros k o c x. unfold cache_apply.
+  destruct k; destruct (memn o c) eqn:Hm; simpl; intros H; auto.
+  - apply in_app_iff in H. destruct H as [H|[H|[]]]; [left; exact H|right; split; [symmetry; exact H|reflexivity]].
+  - apply in_app_iff in H. destruct H as [H|[H|[]]]; [left; exact H|right; split; [symmetry; exact H|reflexivity]].
+  - left. unfold removen in H. apply filter_In in H. apply H.
+Qed.
+
+Lemma outs_from_two : forall st a b,
+  outs_from st [a; b] = (r_out (step st a) ++ r_out (step (r_st (step st a)) b))%list.
+Proof. intros. unfold outs_from. cbn [trace_from concat]. rewrite app_nil_r. reflexivity. Qed.
+
+(* Adding a handler is atomic with respect to events: whatever is in the server
+   after the next event of the resource was shown to the new handler, in its
+   replay or as that event. *)
+Theorem add_is_atomic : forall ops s h own r k o x,
+  sub_live (run ops) s = true -> sub_res (run ops) s = Some r ->
+  In x (fst (cache_apply k o (store (run ops) r))) ->
+  exists n, In (s, h, n) (outs_from (run ops) [AddHandler s h own; Event r k o]) /\ note_obj n = x.
+Proof.
+  intros ops s h own r k o x Hlive Hres Hx.
+  pose proof (Inv_run ops) as I. set (st := run ops) in *.
+  unfold sub_live in Hlive. unfold sub_res in Hres. unfold store in Hx.
+  destruct (st_sub st s) as [i|] eqn:Hs; [|discriminate].
+  inversion Hres as [Hr]. rewrite Hr in Hlive.
+  destruct (rs_cur (st_rs st r)) as [j|] eqn:Hc; [|discriminate].
+  apply Nat.eqb_eq in Hlive. subst j.
+  pose proof (inv_cache st I r i Hc) as Hcache.
+  rewrite outs_from_two.
+  assert (H1 : r_out (step st (AddHandler s h own)) = replay s h (rs_store (st_rs st r))).
+  { simpl. rewrite Hs. simpl. rewrite Hcache. reflexivity. }
+  assert (H2 : r_out (step (r_st (step st (AddHandler s h own))) (Event r k o)) =
+               fanout (i_hs (st_inf st i) ++ [mkHe s h own]) (snd (cache_apply k o (rs_store (st_rs st r))))).
+  { simpl. rewrite Hs. simpl. rewrite Hc. simpl. rewrite upd_same. simpl. rewrite Hcache. reflexivity. }
+  rewrite ?Hr. rewrite H1, H2.
+  destruct (cache_apply_new _ _ _ _ Hx) as [Hold|[Hxo Hn]].
+  - exists (NSync x). split; [|reflexivity]. apply in_or_app. left.
+    unfold replay. apply in_map_iff. exists x. split; [reflexivity|exact Hold].
+  - exists (NAdd o). split; [|simpl; symmetry; exact Hxo]. apply in_or_app. right.
+    rewrite Hn. unfold fanout. apply in_map_iff. exists (mkHe s h own). split; [reflexivity|].
+    apply in_or_app. right. left. reflexivity.
+Qed.
+End Atomic.
